@@ -1,9 +1,24 @@
 #!/bin/bash
-# seedtest.sh <seeded dir name> <property> [tier]: apply a seeded defect to /repo, run the check, undo.
+# seedtest.sh <seeded dir name> <property> [tier]: apply a seeded defect to /repo, run the
+# check (evidence goes to a scratch directory, never to /verif/evidence), undo, and record
+# the outcome in the seed's meta.json.
 d=/verif/seeded/$1; p=$2; t=${3:-quick}
 cd /repo || exit 9
 git apply --check $d/patch.diff || { echo "patch does not apply"; exit 9; }
 git apply $d/patch.diff
-cd /verif; ./check $p --tier $t > /tmp/seedtest_$1_$p_$t.log 2>&1; rc=$?
-git -C /repo checkout -- . 
-echo "seed=$1 property=$p tier=$t exit=$rc"; grep -a "VIOLATION\|INCONCLUSIVE\|tier=" /tmp/seedtest_$1_$p_$t.log | head -8
+log=/tmp/seedtest_${1}_${p}_${t}.log
+cd /verif; VERIF_EVIDENCE_DIR=/tmp/seed-evidence ./check $p --tier $t > $log 2>&1; rc=$?
+git -C /repo checkout -- .
+echo "seed=$1 property=$p tier=$t exit=$rc"; grep -a "VIOLATION\|INCONCLUSIVE\|tier=" $log | cut -c1-300 | head -8
+python3 - "$d/meta.json" "$p" "$t" "$rc" "$log" "${VERIF_ONLY_PKG:-}" <<'PY'
+import json, sys, re
+meta, p, t, rc, log, only = sys.argv[1:7]
+m = json.load(open(meta))
+lines = [l.rstrip()[:400] for l in open(log, errors="replace") if re.search(r"VIOLATION|INCONCLUSIVE|tier=", l)]
+entry = {"check": "./check %s --tier %s" % (p, t) + (" (VERIF_ONLY_PKG=%s)" % only if only else ""), "exit": int(rc),
+         "caught": int(rc) == 1, "output": lines[:6]}
+runs = [r for r in m.get("checks_run", []) if r.get("check") != entry["check"]]
+runs.append(entry)
+m["checks_run"] = runs
+json.dump(m, open(meta, "w"), indent=1)
+PY
